@@ -44,6 +44,11 @@ def enc(v):
         if not all(isinstance(k, str) for k in v):
             raise Unmodelled("non-string dict key")
         return {k: enc(x) for k, x in v.items()}
+    # (real-code-only families: tuples and sets kept by a story are observed as what they are)
+    if isinstance(v, tuple):
+        return {"__tuple__": [enc(x) for x in v]}
+    if isinstance(v, (set, frozenset)):
+        return {"__set__": sorted((enc(x) for x in v), key=repr)}
     raise Unmodelled(f"value of type {type(v).__name__}")
 
 
